@@ -1420,6 +1420,8 @@ def substitute_new_temporaries(fn, known_locals: set[str]) -> int:
                     def _plain(e):
                         return isinstance(e, (ast.Name, ast.Constant)) or (isinstance(e, ast.Tuple) and all(_plain(x) for x in e.elts)) or \
                             (isinstance(e, ast.UnaryOp) and isinstance(e.operand, ast.Constant)) or \
+                            (isinstance(e, (ast.BinOp, ast.UnaryOp)) and all(isinstance(x, (ast.BinOp, ast.UnaryOp, ast.Constant, ast.operator, ast.unaryop))
+                                                                             for x in ast.walk(e))) or \
                             (isinstance(e, ast.Call) and isinstance(e.func, ast.Name) and e.func.id in _STABLE_BUILTINS and not e.keywords
                              and all(_plain(a) for a in e.args))  # id(x) / type(x): fixed by WHICH object x is, not by its state
                     heap = not (_plain(st.value) or _stable_attr_alias(st.value))
